@@ -240,6 +240,24 @@ MUTANTS = [
      "    if include_local_version:\n", "    if True:\n"),
     ("c09-stopiteration-fastpath", "C09", "rpyc/core/vinegar.py",
      "    if typ is StopIteration and (val is None or not (val.args or getattr(val, \"__dict__\", None))):", "    if typ is StopIteration:"),
+    # ---- C17
+    ("c17-close-skips-clients", "C17", "rpyc/utils/server.py",
+     "        for c in set(self.clients):\n            try:\n                c.shutdown(socket.SHUT_RDWR)\n            except Exception:\n                pass\n            c.close()\n        self.clients.clear()",
+     "        self.clients.clear()"),
+    ("c17-discard-removed", "C17", "rpyc/utils/server.py",
+     "            closing(sock)\n            self.clients.discard(sock)", "            closing(sock)"),
+    ("c17-oneshot-stays-open", "C17", "rpyc/utils/server.py",
+     "        try:\n            self._authenticate_and_serve_client(sock)\n        finally:\n            self.close()", "        self._authenticate_and_serve_client(sock)"),
+    ("c17-pool-close-no-drop", "C17", "rpyc/utils/server.py",
+     "        for fd in list(self.fd_to_conn.keys()):\n            self._remove_from_inactive_connection(fd)\n            self._drop_connection(fd)\n", ""),
+    ("c16-pool-close-no-shutdown", "C16", "rpyc/utils/server.py",
+     "                conn._channel.stream.sock.shutdown(socket.SHUT_RDWR)", "                pass"),
+    ("c17-fd-reuse", "C17", "rpyc/utils/server.py",
+     "            if self.fd_to_conn[fd] is conn:\n                del self.fd_to_conn[fd]", "            conn = self.fd_to_conn[fd]\n            del self.fd_to_conn[fd]"),
+    ("c17-close-not-idempotent", "C17", "rpyc/utils/server.py",
+     "        if self._closed:\n            return\n        self._closed = True\n        self.active = False", "        self._closed = True\n        self.active = False\n        self.listener.getsockname()"),
+    ("c17-listener-left-open", "C17", "rpyc/utils/server.py",
+     "        self.listener.close()\n        self.logger.info(\"listener closed\")", "        self.logger.info(\"listener closed\")"),
     # ---- C19
     ("c19-tag-renumbered", "C19", "rpyc/core/brine.py", "TAG_SLICE = b\"\\x19\"\nTAG_FSET = b\"\\x1a\"", "TAG_SLICE = b\"\\x1a\"\nTAG_FSET = b\"\\x19\""),
     ("c19-label-renumbered", "C19", "rpyc/core/consts.py", "LABEL_LOCAL_REF = 3\nLABEL_REMOTE_REF = 4", "LABEL_LOCAL_REF = 4\nLABEL_REMOTE_REF = 3"),
